@@ -87,7 +87,7 @@ def gen_index(i: int, seed: int, tier: str) -> dict[str, Any]:
     n = rng.randint(1, 8)
     beh = []
     for _ in range(n):
-        k = rng.choices(["ok", "drop", "error", "late"], [5, 3, 2, 1])[0]
+        k = rng.choices(["ok", "drop", "error", "late", "foreign"], [5, 3, 2, 1, 2])[0]
         b: dict[str, Any] = {"k": k}
         if k == "error":
             b["status"] = rng.choice([0x21, 0x26, 0x27])
